@@ -399,7 +399,7 @@ func TestVerifC30(t *testing.T) {
 		run(id, &c30Case{Rows: map[string][]string{"1": {"5", fmt.Sprint(w + 5), fmt.Sprint(2*w + 5)}, "7": {"0"}}})
 	})
 
-	n := r.N(120, 6000)
+	n := r.N(120, 4800)
 	r.Cases("rt", n, func(i int, id string, rng *vk.Rand) {
 		run(id, c30Gen(rng, r))
 	})
